@@ -140,7 +140,7 @@ TIES = {
 # statement-level tie: fingerprints of the text of the hand-modelled functions each property runs through (Gen/Shapes, Lemmas/SrcTie/Shape*)
 _ALL_SHAPES = ['ShapeXof', 'ShapeSampleA', 'ShapeSampleS', 'ShapeMask', 'ShapeBall', 'ShapePrehash', 'ShapePack', 'ShapeUnpack', 'ShapeHint', 'ShapePk', 'ShapeSk',
                'ShapeSig', 'ShapeLin', 'ShapeKeygen', 'ShapeSign', 'ShapeVerify', 'ShapeExpand', 'ShapeDerive', 'ShapeApiKeygen', 'ShapeApiSign', 'ShapeApiVerify',
-               'ShapeApiSerde']
+               'ShapeApiSerde', 'ShapeApiDefault']
 SHAPES = {
     'C01': _ALL_SHAPES,
     'C02': ['ShapeXof', 'ShapeSampleA', 'ShapeBall', 'ShapePrehash', 'ShapeUnpack', 'ShapeHint', 'ShapePk', 'ShapeSig', 'ShapeLin', 'ShapeVerify', 'ShapeExpand', 'ShapeApiVerify'],
@@ -154,7 +154,7 @@ SHAPES = {
     'C09': ['ShapePack', 'ShapeUnpack', 'ShapePk', 'ShapeSk', 'ShapeLin', 'ShapeExpand', 'ShapeApiSerde'],
     'C10': ['ShapeUnpack', 'ShapeSk', 'ShapeExpand', 'ShapeApiSerde'],
     'C11': ['ShapeXof', 'ShapeSampleA', 'ShapeLin', 'ShapeKeygen', 'ShapeDerive', 'ShapeExpand', 'ShapeApiSerde'],
-    'C12': ['ShapeKeygen', 'ShapeApiKeygen', 'ShapeApiSign'],
+    'C12': ['ShapeKeygen', 'ShapeApiKeygen', 'ShapeApiSign', 'ShapeApiDefault'],
     'C13': _ALL_SHAPES,
     'C14': ['ShapeApiDudect'],
     'C18': ['ShapeLin'],
@@ -356,8 +356,36 @@ def load_known():
         return []
 
 
+def run_regressions(rep):
+    """inputs that once exposed a seeded defect (corpus/regressions.json, checks/mk_regress.py), with the unchanged crate's answer: replayed on
+    every run so that they are met whatever the seed of the random families is"""
+    path = os.path.join(VERIF, 'corpus', 'regressions.json')
+    if not os.path.exists(path):
+        return
+    try:
+        cases = json.load(open(path))['cases'].get(rep.prop, [])
+    except Exception as e:
+        rep.notes.append(f'regression corpus unreadable: {e}')
+        return
+    if not cases:
+        return
+    ops = [c['op'] for c in cases]
+    for prof in ('checked', 'fast'):
+        outs = run_stream([RUST[prof]], ops)
+        for c, o in zip(cases, outs):
+            rep.evaluations += 1
+            rep.count('regression input (once exposed a seeded defect)')
+            if canon(o) != canon(c[prof]):
+                rep.violation('implementation-vs-oracle', [c['op']], {'profile': prof, 'tag': 'regression input ' + c.get('from', ''), 'output': (o or '')[:300],
+                              'oracle': f"the unchanged crate answers {c[prof][:80]} (corpus/regressions.json)"}, True)
+            else:
+                rep.nontrivial.add(('regression', hashlib.sha256(c['op'].encode()).hexdigest()[:16], prof))
+
+
 def finish(rep, build, level, coverage_extra, assumptions, n_obligations=None):
     """print verdict lines, write evidence, return exit code"""
+    if build is not None and not build.cargo_errs:
+        run_regressions(rep)
     broken = build.broken if build else []
     if not MODEL_AVAILABLE:
         rep.notes.append('the model driver does not build against the regenerated Gen files: correspondence not run (model stream replaced by the '
